@@ -152,8 +152,8 @@ func c19Corpus(seed int64, obs map[string]int) ([]corpusEntry, error) {
 				obs["corpus-v1:"+k]++
 				if t, ok := v0Twin(id, data); ok {
 					// a twin is only kept when the library decodes it to the same content as the v1 register
-					s0, err0 := atree.DecodeSlab(id, t, cborDecMode, decodeStorable, decodeTypeInfo)
-					s1, err1 := atree.DecodeSlab(id, data, cborDecMode, decodeStorable, decodeTypeInfo)
+					s0, err0 := atree.DecodeSlab(id, t, cborDecModeDefault, decodeStorable, decodeTypeInfo)
+					s1, err1 := atree.DecodeSlab(id, data, cborDecModeDefault, decodeStorable, decodeTypeInfo)
 					if err0 == nil && err1 == nil && slabInfoEqual(atree.VerifSlabInfo(s1), atree.VerifSlabInfo(s0), "v0twin") == nil {
 						out = append(out, corpusEntry{id, t, "v0:" + k})
 						obs["corpus-v0:"+k]++
@@ -322,13 +322,13 @@ func tryInput(id atree.SlabID, in []byte, out *c19Out) (v *Violation) {
 	_, _ = atree.HasPointers(in)
 	_, _ = atree.HasSizeLimit(in)
 	before := allocBytes()
-	s, err := atree.DecodeSlab(id, in, cborDecMode, decodeStorable, decodeTypeInfo)
+	s, err := atree.DecodeSlab(id, in, cborDecModeDefault, decodeStorable, decodeTypeInfo)
 	after := allocBytes()
 	if d := after - before; d > 1<<20+512*uint64(len(in)) {
 		// The cheap counter is flushed in bursts (per-span accounting), so re-measure this input exactly.
 		var m0, m1 runtime.MemStats
 		runtime.ReadMemStats(&m0)
-		_, _ = atree.DecodeSlab(id, in, cborDecMode, decodeStorable, decodeTypeInfo)
+		_, _ = atree.DecodeSlab(id, in, cborDecModeDefault, decodeStorable, decodeTypeInfo)
 		runtime.ReadMemStats(&m1)
 		exact := m1.TotalAlloc - m0.TotalAlloc
 		if exact > 1<<20+512*uint64(len(in)) {
